@@ -8,7 +8,7 @@ event is popped in the batch of 20 (EventMultiplexer.pop_while(20)) and its hand
 Statement of C12: "While a handler runs the dispatcher clock equals the event's time" (no qualifier); quantifier of C12:
 "events pushed to derived sources by handlers" (a scheduled job is not a handler in the library's vocabulary).
 
-exit 0 = the handler saw the event's own time; exit 1 = it saw another clock (what the unchanged tree does).
+exit 0 = the handler saw the event's own time (since /repo 20c027b); exit 1 = it saw another clock (the tree before 20c027b).
 Run: PYTHONPATH=/repo /venv/bin/python /verif/notes/I1-defect-1.py
 """
 import asyncio
